@@ -5,6 +5,7 @@ package server
 import (
 	"bytes"
 	"fmt"
+	"net"
 	"strings"
 	rtime "time"
 
@@ -167,6 +168,9 @@ func redirOne(in redirInput, cuts []int, script string, hello []byte) {
 				webOpen = false
 				return
 			}
+			if bytes.HasSuffix(webGot, lateProbe) {
+				wc.Write(lateReply)
+			}
 		}
 	})
 	r.serve(1)
@@ -222,8 +226,32 @@ func redirOne(in redirInput, cuts []int, script string, hello []byte) {
 			vrt.Fail("peer-gets-target-bytes", "input %s cuts %v script %s: the target replied %d bytes, the peer received %d", in.name, cuts, script, len(script0), len(peerGot))
 		}
 	}
+	if in.complete && (script == "silent" || script == "one" || script == "two") {
+		if !webOpen {
+			vrt.Fail("relay-stays-transparent", "input %s script %s: 20 s after accept the connection to the redirect target has been closed although neither the peer nor the target closed theirs", in.name, script)
+		}
+		// the relay is transparent for as long as both ends keep the connection: 20 s after the
+		// connection was accepted (and again 40 s later) the peer sends more and the target answers
+		for round := 0; round < 2; round++ {
+			if _, err := peer.Write(lateProbe); err != nil {
+				vrt.Fail("relay-stays-transparent", "input %s script %s: %d s after accept, with both ends still open, the peer's write failed: %v", in.name, script, 20+40*round, err)
+			}
+			quiesce()
+			var late []byte
+			for peer.Queued() > 0 {
+				k, _ := peer.Read(b)
+				late = append(late, b[:k]...)
+			}
+			if !bytes.HasSuffix(webGot, lateProbe) || !bytes.Equal(late, lateReply) {
+				vrt.Fail("relay-stays-transparent", "input %s script %s: %d s after accept the peer sent %d more bytes and the target answered %d: the target has %d bytes in all (late bytes arrived: %v), the peer received %d", in.name, script, 20+40*round, len(lateProbe), len(lateReply), len(webGot), bytes.HasSuffix(webGot, lateProbe), len(late))
+			}
+			time.Sleep(40 * time.Second)
+		}
+	}
 	vrt.Observe("%s web=%d/%d peer=%d/%d open=%v", script, len(webGot), len(sent), len(peerGot), len(script0), webOpen)
 }
+
+var lateProbe, lateReply = []byte("LATE-PROBE-FROM-PEER"), []byte("late reply from target")
 
 func firstDiff(a, b []byte) int {
 	for i := 0; i < len(a) && i < len(b); i++ {
@@ -330,7 +358,7 @@ func init() {
 						break
 					}
 					in, cuts, script := in, cuts, script
-					sc := &vrt.Scenario{Opt: vrt.Options{Seed: c.Seed, Delay: true, HorizonNs: int64(100 * time.Second)}, Main: func() { redirOne(in, cuts, script, hello) }}
+					sc := &vrt.Scenario{Opt: vrt.Options{Seed: c.Seed, Delay: true, HorizonNs: int64(300 * time.Second)}, Main: func() { redirOne(in, cuts, script, hello) }}
 					e := &vrt.Explorer{Sc: sc, Bound: bound, StopFirst: true, Deadline: c.Deadline}
 					e.Explore()
 					rep.Executions += e.Stats.Executions
@@ -364,6 +392,90 @@ func init() {
 		return rep
 	}})
 
+	// redir.target: which address the relay connects to. The configured redirect host, on the
+	// configured port or - when none is configured - on the port the peer contacted; for every sequence
+	// of probes (up to `depth`) arriving on the server's two ports.
+	vx.Register(&vx.Scenario{Name: "redir.target", Prop: "C09", Run: func(c *vx.Ctx) *vx.Report {
+		rep := &vx.Report{Job: c.Job, Engine: "enum", Outcomes: map[string]int64{}, Exhaustive: true}
+		depth := c.PI("depth", 3)
+		ports := []string{"443", "80"}
+		var seqs [][]string
+		var gen func(pre []string)
+		gen = func(pre []string) {
+			if len(pre) > 0 {
+				seqs = append(seqs, append([]string{}, pre...))
+			}
+			if len(pre) == depth {
+				return
+			}
+			for _, p := range ports {
+				gen(append(pre, p))
+			}
+		}
+		gen(nil)
+		for _, cfgPort := range []string{"", "8443"} {
+			for _, seq := range seqs {
+				cfgPort, seq := cfgPort, seq
+				var got, want []string
+				res := runSchedOnce(c.Seed, 100*time.Second, func() {
+					want = nil
+					r := newE2ERig(nil, nil, nil)
+					r.sta.RedirPort = cfgPort
+					l80 := r.net.Listen("server:80", false)
+					vrt.Go("web", func() {
+						for {
+							wc, err := r.webL.Accept()
+							if err != nil {
+								return
+							}
+							_ = wc
+						}
+					})
+					for i, p := range seq {
+						conn, err := r.dialer.Dial("tcp", "server:"+p)
+						if err != nil {
+							vrt.Fail("harness", "dial: %v", err)
+						}
+						l := r.srvL
+						if p == "80" {
+							l = l80
+						}
+						sc, err := l.Accept()
+						if err != nil {
+							vrt.Fail("harness", "accept: %v", err)
+						}
+						vrt.Go(fmt.Sprintf("dispatch%d", i), func() { dispatchConnection(sc, r.sta) })
+						conn.Write([]byte("hello, not a handshake\n"))
+						quiesce()
+						wp := cfgPort
+						if wp == "" {
+							wp = p
+						}
+						want = append(want, net.JoinHostPort(r.sta.RedirHost.String(), wp))
+					}
+					got = append([]string{}, redirAddrs...)
+				})
+				rep.Executions++
+				rep.Transitions += int64(len(seq))
+				msg := ""
+				if res.Status != vrt.Complete {
+					msg = fmt.Sprintf("%s: %s", res.Status, res.Msg)
+				} else if fmt.Sprint(got) != fmt.Sprint(want) {
+					msg = fmt.Sprintf("redirect port configured %q, probes arriving on ports %v: the relay connected to %v, expected %v", cfgPort, seq, got, want)
+				}
+				rep.Outcomes[fmt.Sprintf("configured=%q", cfgPort)]++
+				if msg != "" {
+					rep.Violations = append(rep.Violations, vx.Violation{Clause: "relay-goes-to-configured-target", Sig: vx.Sig(c.Job, "relay-goes-to-configured-target"), Msg: msg})
+					rep.Exhaustive = false
+					rep.States = rep.Executions
+					return rep
+				}
+			}
+		}
+		rep.States = rep.Executions
+		return rep
+	}})
+
 	vx.RegisterJobs("C09", func(tier string) []vx.Job {
 		q := tier == "quick"
 		var jobs []vx.Job
@@ -380,6 +492,7 @@ func init() {
 				jobs = append(jobs, vx.Job{Scenario: "redir.relay", Params: vx.P("family", fam, "cuts", "single", "scripts", "one,two,reply-close,close"), Bound: 2, BudgetS: 900, Weight: 9})
 			}
 		}
+		jobs = append(jobs, vx.Job{Scenario: "redir.target", Params: vx.P("depth", map[bool]string{true: "3", false: "5"}[q]), Weight: 1})
 		return jobs
 	})
 }
